@@ -191,7 +191,7 @@ def c09(ctx):
         if len(ln["layers"]) >= 2:
             ctx.nontrivial.add((tuple((l["k"], l["idx"]) for l in ln["layers"]), tuple(ln["e"])))
     # random real isometries: Solver contract (forward / link poses, answers map back, ordering, J6) behind stacks
-    ev, viols = solver_trace(ctx, "C09", 3 if ctx.quick else 10)
+    ev, viols = solver_trace(ctx, "C09", 6 if ctx.quick else 12)
     solver_report(ctx, ev, viols, "C09")
     ctx.exhaustive = True
     return finish(ctx, rule="every stack of Tool/Frame/Base layers up to depth MaxDepth over the lattice isometries Isos "
@@ -279,7 +279,7 @@ def c01(ctx):
     ctx.evaluations += st.get("evaluations", 0)
     ctx.traces += st.get("nontrivial", 0)
     ctx.extra["singular_lattice_calls_answered"] = st.get("nontrivial", 0)
-    ev, viols = solver_trace(ctx, "", 3 if ctx.quick else 10)
+    ev, viols = solver_trace(ctx, "", 6 if ctx.quick else 12)
     solver_report(ctx, ev, viols, "C01")
     return finish(ctx, rule=SOLVER_RULE, assumptions=SOLVER_ASSUME)
 
@@ -296,14 +296,14 @@ def c02(ctx):
     ctx.evaluations += st.get("evaluations", 0)
     ctx.traces += st.get("nontrivial", 0)
     ctx.extra["lattice_configurations_solved"] = st.get("nontrivial", 0)
-    ev, viols = solver_trace(ctx, "C02", 12 if ctx.quick else 40)
+    ev, viols = solver_trace(ctx, "C02", 18 if ctx.quick else 42)
     solver_report(ctx, ev, viols, "C02")
     return finish(ctx, rule=SOLVER_RULE, assumptions=SOLVER_ASSUME)
 
 
 @check("C04")
 def c04(ctx):
-    ev, viols = solver_trace(ctx, "C04", 4 if ctx.quick else 12, follow=True)
+    ev, viols = solver_trace(ctx, "C04", 6 if ctx.quick else 12, follow=True)
     solver_report(ctx, ev, viols, "C04")
     # continuation order must survive the collision filter of a robot with shape (C11's trace spec, continuation entries)
     opwv(ctx, ["record", "shape", ctx.path("shape.trace")])
@@ -323,14 +323,14 @@ def c04(ctx):
 
 @check("C06")
 def c06(ctx):
-    ev, viols = solver_trace(ctx, "C06", 4 if ctx.quick else 12)
+    ev, viols = solver_trace(ctx, "C06", 9 if ctx.quick else 15)
     solver_report(ctx, ev, viols, "C06")
     return finish(ctx, rule=SOLVER_RULE, assumptions=SOLVER_ASSUME)
 
 
 @check("C08")
 def c08(ctx):
-    ev, viols = solver_trace(ctx, "C08", 4 if ctx.quick else 12)
+    ev, viols = solver_trace(ctx, "C08", 9 if ctx.quick else 15)
     solver_report(ctx, ev, viols, "C08")
     return finish(ctx, rule=SOLVER_RULE + "; every constrained call is paired with the same call on a twin robot without "
                   "limits, and TLC recomputes compliance of every unconstrained answer with OnArc",
@@ -406,7 +406,7 @@ def c16(ctx):
     for ln in lines:
         if ln["layers"]:
             ctx.nontrivial.add(json.dumps(ln["layers"]) + str(ln["e"]))
-    ev, viols = solver_trace(ctx, "C16", 6 if ctx.quick else 20)
+    ev, viols = solver_trace(ctx, "C16", 9 if ctx.quick else 21)
     solver_report(ctx, ev, viols, "C16")
     return finish(ctx, rule="every coupling (driven != coupled, scaling in {-2,-1,-1/2,1/2,1,2}) that is exact on the lattice x 4 "
                   "configurations (and stacks of two couplings in the thorough tier), with the exact link poses of the inner robot "
